@@ -32,7 +32,8 @@ Finish == /\ stage = "data" /\ Len(x) \in Lens
                          [] kind = "a85" -> {"plain", "ws", "lead"}
                          [] kind = "png" -> {"dict", "array", "absent-columns"}
                          [] kind = "tiff" -> {"dict"}
-                         [] kind = "chain" -> {"AHx+A85", "A85+AHx", "A85+Fl", "AHx+Fl", "AHx+A85+Fl", "abbrev", "null-parms", "Fl+png"}
+                         [] kind = "chain" -> {"AHx+A85", "A85+AHx", "A85+Fl", "AHx+Fl", "AHx+A85+Fl", "abbrev", "null-parms", "Fl+png",
+                                               "Fl+Fl:dict-null", "Fl+Fl:short", "Fl+Fl:null-dict", "AHx+Fl+Fl:null-dict-null"}
                          [] kind = "err" -> {"tag5", "rowsize", "badhex", "bad85", "over85"}) : opt' = o
           /\ stage' = "done" /\ UNCHANGED <<kind, x, geo, tags>>
 Next == PickGeo \/ PickRows \/ AddByte \/ Finish
@@ -49,7 +50,9 @@ Encoded ==
       [] kind = "chain" /\ opt = "AHx+A85" -> HexEnc(A85Enc(x, "plain"), "upper")
       [] kind = "chain" /\ opt = "A85+AHx" -> A85Enc(HexEnc(x, "lower"), "plain")
       \* Flate + PNG predictor innermost (one row, Sub filter), wrapped in ASCII85 by the harness
-      [] kind = "chain" /\ opt = "Fl+png" -> IF x = <<>> THEN <<>> ELSE PngEnc(x, <<1>>, Len(x), 1)
+      [] kind = "chain" /\ opt \in {"Fl+png", "Fl+Fl:null-dict"} -> IF x = <<>> THEN <<>> ELSE PngEnc(x, <<1>>, Len(x), 1)
+      \* two Flate stages where only the OUTER one (decoded first) has a predictor: the harness predicts the
+      \* deflated inner data with its own encoder (validated by FiltersTrace), DecodeParms [dict null] or [dict]
       [] kind = "chain" -> x                        \* Flate innermost: the harness deflates x and wraps it
       [] kind = "err" /\ opt = "tag5"    -> <<5>> \o x
       [] kind = "err" /\ opt = "rowsize" -> <<0>> \o x \o <<0, 7>>
